@@ -115,6 +115,56 @@ def check_ro(inp, out):
     return v
 
 
+def check_ro32(inp, out):
+    """n = 2/3: the stress level is K sgn(r) r^2, its plastic strain |r|^3 exactly."""
+    from pylife.materiallaws.rambgood import RambergOsgood
+    E, K, r = F(inp['E']), F(inp['K']), F(inp['r'])
+    ro = RambergOsgood(E, K, 2.0 / 3.0)
+    s = K * (1 if r > 0 else -1 if r < 0 else 0) * r * r
+    v = []
+    case = {'E': E, 'K': K, 'n': '2/3', 'stress': s}
+    want = F(out['strain'][0]) + F(out['strain'][1])
+    got = float(ro.strain(s))
+    if not close(got, want, 1e-11):
+        v.append(("Ramberg-Osgood strain is not s/E + sgn(s)(|s|/K)^(1/n)", case, want, got))
+    if abs(want) > 1.0:
+        return v
+    tol = lambda x: 1e-5 * abs(x) + 1e-6
+    with warnings.catch_warnings():
+        warnings.simplefilter('ignore')
+        try:
+            b = float(ro.stress(want))
+            if not abs(b - s) <= tol(s):
+                v.append(("stress(strain(s)) != s beyond the solver tolerance", case, s, b))
+            # arrays that contain an exact zero next to other strains: every element as the scalar call
+            e2 = float(ro.strain(0.5 * K))
+            for others in ([want, 0.0, e2], [0.0, want], [-want, 0.0, want]):
+                ba = np.asarray(ro.stress(np.array(others, dtype=np.float64)), dtype=np.float64)
+                ref = [float(ro.stress(x)) for x in others]
+                if not all(np.isfinite(ba)) or any(abs(x - y) > tol(y) for x, y in zip(ba, ref)):
+                    v.append(("array evaluation of stress() with a zero strain among its elements differs from the scalar calls", {**case, 'strains': others}, ref, ba.tolist()))
+                bd = np.asarray(ro.delta_stress(np.array([2 * x for x in others], dtype=np.float64)), dtype=np.float64)
+                if not all(np.isfinite(bd)) or any(abs(x - 2 * y) > 2 * tol(y) for x, y in zip(bd, ref)):
+                    v.append(("delta_stress of an array of doubled strains (with a zero among them) is not twice the stresses", {**case, 'strains': others}, [2 * y for y in ref], bd.tolist()))
+        except Exception as ex:
+            v.append(("Ramberg-Osgood raised %r" % ex, case, None, None))
+    return v
+
+
+def check_moduli(inp, out):
+    from pylife.materiallaws.hookeslaw import HookesLaw2dPlaneStress, HookesLaw2dPlaneStrain, HookesLaw3d
+    E, nu = F(inp['E']), F(inp['nu'])
+    v = []
+    for cls in (HookesLaw3d, HookesLaw2dPlaneStress, HookesLaw2dPlaneStrain):
+        try:
+            h = cls(E, nu)
+            if not (close(h.G, F(out['G']), 1e-12) and close(h.K, F(out['K']), 1e-9)):
+                v.append(("shear / bulk modulus do not follow from E and nu", {'E': E, 'nu': nu, 'class': cls.__name__}, [F(out['G']), F(out['K'])], [float(h.G), float(h.K)]))
+        except Exception as ex:
+            v.append(("%s raised %r for an admissible Poisson ratio" % (cls.__name__, ex), {'E': E, 'nu': nu}, None, None))
+    return v
+
+
 def true_stress_strain(chk):
     from pylife.materiallaws import true_stress_strain as T
     for e in [-0.5, -0.02, -1e-3, 0.0, 1e-3, 0.02, 0.5, 2.0]:
@@ -145,7 +195,7 @@ def run(chk):
         for st in parse_dump(res.dump_path):
             n += 1
             try:
-                vs = check_hooke(st['inp'], st['out']) if st['part'] == 'hooke' else check_ro(st['inp'], st['out'])
+                vs = {'hooke': check_hooke, 'ro': check_ro, 'ro32': check_ro32, 'moduli': check_moduli}[st['part']](st['inp'], st['out'])
             except Exception as ex:
                 vs = [('%s check raised %r' % (st['part'], ex), {'inp': st['inp']}, None, None)]
             for what, case, exp, got in vs[:2]:
